@@ -155,6 +155,9 @@ var (
 // newGen: the shared generator with this harness's extra names.
 func newGen(rnd *rand.Rand, large bool) *memsim.Gen {
 	g := memsim.NewGen(rnd, large)
+	g.PushExtras = true
+	g.Recommit = true
+	g.MountDelete = true
 	g.BadRepos = append(append([]string{}, g.BadRepos...), rawBadRepos...)
 	g.BadTags = append(append([]string{}, g.BadTags...), rawBadTags...)
 	g.BadDigests = append(append([]string{}, g.BadDigests...), rawBadDigests...)
